@@ -500,7 +500,7 @@ func propC07Div(c *Ctx, an *Absint, funcs []*ssa.Function) {
 	allowed := map[string]string{
 		"(*tcp.renoState).HandleRTOExpired":          "1",
 		"(*tcp.renoState).updateSlowStart":           "phi{$0.s.sndSsthresh | ($0.s.sndCwnd + $1)}",
-		"(*tcp.renoState).updateCongestionAvoidance": "($0.s.sndCwnd + ($0.s.sndCAAckCount / $0.s.sndCwnd))",
+		"(*tcp.renoState).updateCongestionAvoidance": "($0.s.sndCwnd + ($0.s.sndCAAckCount@1 / $0.s.sndCwnd))",
 		"tcp.newSender":                              "10",
 		"(*tcp.sender).sendData":                     "10",
 		"(*tcp.sender).enterFastRecovery":            "($0.sndSsthresh + 3)",
@@ -519,7 +519,7 @@ func propC07Div(c *Ctx, an *Absint, funcs []*ssa.Function) {
 	}
 	if fn := c.Fn(p4, "(*tcp.renoState).reduceSlowStartThreshold"); fn != nil {
 		c.CheckSites(p4, fn, []SiteSpec{
-			{Kind: "store", Target: "tcp.sender.sndSsthresh", Args: []string{"$0.s", "2"}, Guards: []string{"($0.s.sndSsthresh < 2)"}, Exact: true, N: 1, Why: "ssthresh is clamped to >= 2"},
+			{Kind: "store", Target: "tcp.sender.sndSsthresh", Args: []string{"$0.s", "2"}, Guards: []string{"($0.s.sndSsthresh@1 < 2)"}, Exact: true, N: 1, Why: "ssthresh is clamped to >= 2"},
 			{Kind: "store", Target: "tcp.sender.sndSsthresh", Args: []string{"$0.s", "($0.s.outstanding / 2)"}, Guards: []string{}, Exact: true, N: 1, Why: "ssthresh = outstanding/2 (RFC 5681 eq. 4)"},
 		})
 	}
